@@ -29,16 +29,19 @@ def endsZero (y : List K) : Bool :=
   | some a, some b => decide (a = 0) && decide (b = 0)
   | _, _ => false
 
+/-- `x[-1] < x[0]` -/
+def isDesc (x : List K) : Bool :=
+  match x.head?, x.getLast? with
+  | some a, some b => decide (b < a)
+  | _, _ => false
+
 /-- `Empirical1D(points=x, lookup_table=y, keep_neg=…)`; second component: `'NegativeFlux'`
 warning recorded. -/
 def mkTable (x y : List K) (keepNeg : Bool) : Table K × Bool :=
-  let desc : Bool := match x.head?, x.getLast? with
-    | some a, some b => decide (b < a)
-    | _, _ => false
-  let x' := if desc then x.reverse else x
-  let y' := if desc then y.reverse else y
-  let (yc, warn) := clipNeg keepNeg y'
-  ({ pts := x', vals := yc, keepNeg := keepNeg, fillNaN := !endsZero yc }, warn)
+  let x' := if isDesc x then x.reverse else x
+  let y' := if isDesc x then y.reverse else y
+  let yc := clipNeg keepNeg y'
+  ({ pts := x', vals := yc.1, keepNeg := keepNeg, fillNaN := !endsZero yc.1 }, yc.2)
 
 def Table.isTapered (t : Table K) : Bool := endsZero t.vals
 
